@@ -2,6 +2,7 @@
 from __future__ import annotations
 
 import copy
+import os
 import random
 import re
 
@@ -182,6 +183,17 @@ def check_one(out, case, sub):
             main = text
         else:
             return None  # only the main file can end inside the statement and still be reached
+    shown = fname
+    pre = sub.get("incprefix") or ""
+    if pre and fname != "main.s":
+        # the included file is named with a leading ./ , through a ../<dir>/ detour or by its absolute path: the error names it
+        # the way the directive does
+        wd = driver.workdir()
+        shown = {"./": "./" + fname, "../": "../" + os.path.basename(wd) + "/" + fname, "abs": os.path.join(wd, fname)}[pre]
+        old_d, new_d = f".include '{fname}'", f".include '{shown}'"
+        main = main.replace(old_d, new_d)
+        files = {k: v.replace(old_d, new_d) if isinstance(v, str) else v for k, v in files.items()}
+        text = text.replace(old_d, new_d)
     pad = sub.get("pad") or 0
     if pad:
         # a long file: the statement sits beyond line 1000 (blank lines and comments in front of everything)
@@ -199,19 +211,19 @@ def check_one(out, case, sub):
         out.bad(f"{fault}:accepted", sub, f"erroneous statement `{stmt_text}` at {fname}:{lineno} was accepted\n{main}")
         return (fname, lineno)
     msg = res.failure_text
-    m = re.search(re.escape(fname) + r":(\d+)(?!\d)", msg)
+    m = re.search(re.escape(shown) + r":(\d+)(?!\d)", msg)
     if not m:
-        out.bad(f"{fault}:no-location:{where}", sub, f"error does not name {fname}:<line> for the statement at line {lineno}: {msg[:300]!r}\n--- {fname}\n{text}")
+        out.bad(f"{fault}:no-location:{where}", sub, f"error does not name {shown}:<line> for the statement at line {lineno}: {msg[:300]!r}\n--- {fname}\n{text}")
         return (fname, lineno)
     got_line = int(m.group(1))
     if got_line != lineno:
         kind = "off-by" + (str(got_line - lineno) if abs(got_line - lineno) <= 2 else "-many")
-        out.bad(f"{fault}:line:{kind}:{where}", sub, f"statement is at {fname}:{lineno} (zero-based) but the error says line {got_line}: {msg[:300]!r}\n--- {fname}\n{text}")
+        out.bad(f"{fault}:line:{kind}:{where}", sub, f"statement is at {shown}:{lineno} (zero-based) but the error says line {got_line}: {msg[:300]!r}\n--- {fname}\n{text}")
         return (fname, lineno)
     if actual_line not in msg:
         out.bad(f"{fault}:line-text:{where}", sub, f"error does not quote the statement's line {actual_line!r}: {msg[:300]!r}")
     if fault in LEXICAL:
-        mc = re.search(re.escape(fname) + r":" + str(lineno) + r":(-?\d+)", msg)
+        mc = re.search(re.escape(shown) + r":" + str(lineno) + r":(-?\d+)", msg)
         if not mc:
             out.bad(f"{fault}:no-column:{where}", sub, f"lexical error without a column: {msg[:300]!r}")
         else:
@@ -260,7 +272,7 @@ def run_case(case) -> Outcome:
                 sub = {"t": "one", "rom": case["rom"], "ir": case["ir"], "files": case.get("files") or {}, "layout_seed": case["layout_seed"], "fault": fault,
                        "steps": [list(s) for s in steps], "index": index, "indent": rng.choice(["", " ", "    ", "\t", " \t"]),
                        "tail": rng.choice(["", "", " ; trailing", "   "]) if not eof and not fault.startswith("unterminated") else "", "eof": eof,
-                       "pad": rng.choice([0] * 30 + [998, 1000, 1234, 2047, 10000])}
+                       "pad": rng.choice([0] * 30 + [998, 1000, 1234, 2047, 10000]), "incprefix": rng.choice(["", "", "", "./", "../", "abs"])}
                 loc = check_one(out, case, sub)
                 if loc is None:
                     continue
